@@ -140,7 +140,7 @@ def execute(plan):
                               "(this one pre-assembled as %s) disagrees with frame-wise delivery of PGN %d src %d (%d-byte payload): %s vs %s" %
                               (mf, pgn, src, len(e["whole"]) // 2, _b(r), _b(base))))
                 break
-        if is_msg and e["k"] == "fast" and not last:
+        if is_msg and e["k"] == "fast" and not last and e.get("m") not in ambiguous and e.get("m") not in tainted:
             v.append(viol("C07.early.ebyte", evno, "frame-level listeners returned a message at frame %d of %d" % (e["i"], e["n"])))
             break
         if is_msg:
